@@ -91,7 +91,10 @@ class Metric(BaseModel):
                     import sqlglot
                     from sqlglot import expressions as exp
 
-                    parsed = sqlglot.parse_one(sql_val, read="duckdb")
+                    # The {model} placeholder is not SQL (sqlglot reads it as a struct literal):
+                    # parse with an identifier in its place and put it back afterwards
+                    model_token = "__sidemantic_model_placeholder__"
+                    parsed = sqlglot.parse_one(sql_val.replace("{model}", model_token), read="duckdb")
 
                     # Only extract if the TOP-LEVEL expression is a simple aggregation
                     # This prevents breaking expressions like SUM(x) / SUM(y)
@@ -172,7 +175,7 @@ class Metric(BaseModel):
                     if agg_func:
                         data["agg"] = agg_func
                         if inner_expr is not None:
-                            data["sql"] = inner_expr
+                            data["sql"] = inner_expr.replace(model_token, "{model}")
                         elif agg_func == "count":
                             # COUNT(*) - leave sql as None or "*"
                             data["sql"] = None
